@@ -36,7 +36,7 @@ import (
 )
 
 const modPath = "github.com/mochi-mqtt/server/v2"
-const version = "vinstr-7"
+const version = "vinstr-9"
 
 var instrumented = []string{".", "packets", "listeners", "mempool", "system", "hooks/auth"}
 
@@ -199,6 +199,27 @@ func instrument(repo, out string) []string {
 				}
 				os.Exit(2)
 			}
+			// drop comments inside the file body: rewritten nodes have no positions and the
+			// printer would scatter them (no compiler directives exist in these packages;
+			// a //go: directive makes the instrumenter fail below)
+			var keep []*ast.CommentGroup
+			for _, cg := range f.Comments {
+				for _, cm := range cg.List {
+					if strings.HasPrefix(cm.Text, "//go:") && cg.Pos() > f.Package {
+						r.errs = append(r.errs, fmt.Sprintf("%s: compiler directive %s not supported", pkg.Fset.Position(cm.Pos()), cm.Text))
+					}
+				}
+				if cg.End() < f.Package {
+					keep = append(keep, cg)
+				}
+			}
+			f.Comments = keep
+			if len(r.errs) > 0 {
+				for _, e := range r.errs {
+					fmt.Fprintln(os.Stderr, "vinstr: cannot instrument:", e)
+				}
+				os.Exit(2)
+			}
 			var buf bytes.Buffer
 			must(format.Node(&buf, pkg.Fset, f))
 			must(os.WriteFile(filepath.Join(out, rel), buf.Bytes(), 0o644))
@@ -236,7 +257,9 @@ func (r *rewriter) rewrite() {
 		case *ast.GoStmt:
 			c.Replace(r.goStmt(n))
 		case *ast.SelectStmt:
-			r.selectStmt(c, n, handled)
+			if !handled[n] {
+				r.selectStmt(c, n, handled)
+			}
 		case *ast.SendStmt:
 			if !handled[n] {
 				r.insertWait(c, n.Pos(), []ast.Expr{r.ready("SendReady", n.Chan)})
@@ -314,40 +337,64 @@ func (r *rewriter) insertWait(c *astutil.Cursor, pos token.Pos, conds []ast.Expr
 func (r *rewriter) selectStmt(c *astutil.Cursor, n *ast.SelectStmt, handled map[ast.Node]bool) {
 	hasDefault := false
 	var conds []ast.Expr
+	var cases []ast.Stmt
+	idx := 0
 	for _, cc := range n.Body.List {
-		comm := cc.(*ast.CommClause).Comm
-		switch s := comm.(type) {
+		cl := cc.(*ast.CommClause)
+		var cond ast.Expr
+		switch s := cl.Comm.(type) {
 		case nil:
 			hasDefault = true
+			cases = append(cases, &ast.CaseClause{List: nil, Body: cl.Body})
+			continue
 		case *ast.SendStmt:
 			handled[s] = true
-			conds = append(conds, r.ready("SendReady", s.Chan))
+			cond = r.ready("SendReady", s.Chan)
 		case *ast.ExprStmt:
 			u := s.X.(*ast.UnaryExpr)
 			handled[u] = true
 			handled[s] = true
-			conds = append(conds, r.ready("RecvReady", u.X))
+			cond = r.ready("RecvReady", u.X)
 		case *ast.AssignStmt:
 			u := s.Rhs[0].(*ast.UnaryExpr)
 			handled[u] = true
 			handled[s] = true
-			conds = append(conds, r.ready("RecvReady", u.X))
+			cond = r.ready("RecvReady", u.X)
 		}
-	}
-	if c.Index() < 0 {
-		r.errs = append(r.errs, fmt.Sprintf("%s: select is not in a statement list", r.fset.Position(n.Pos())))
-		return
-	}
-	if hasDefault {
-		r.needZ = true
-		c.InsertBefore(&ast.ExprStmt{X: &ast.CallExpr{Fun: sel("zzvrt", "Point"), Args: []ast.Expr{strLit(r.site(n.Pos(), "select-default"))}}})
-		return
+		conds = append(conds, cond)
+		body := append([]ast.Stmt{cl.Comm}, cl.Body...)
+		cases = append(cases, &ast.CaseClause{List: []ast.Expr{&ast.BasicLit{Kind: token.INT, Value: strconv.Itoa(idx)}}, Body: body})
+		idx++
 	}
 	if len(conds) == 0 {
-		r.errs = append(r.errs, fmt.Sprintf("%s: empty select", r.fset.Position(n.Pos())))
+		r.errs = append(r.errs, fmt.Sprintf("%s: select without communication cases", r.fset.Position(n.Pos())))
 		return
 	}
-	r.insertWait(c, n.Pos(), conds)
+	r.needZ = true
+	kind := "select"
+	if hasDefault {
+		kind = "select-default"
+	}
+	fn := &ast.FuncLit{
+		Type: &ast.FuncType{Params: &ast.FieldList{}, Results: &ast.FieldList{List: []*ast.Field{{Type: &ast.ArrayType{Elt: ast.NewIdent("bool")}}}}},
+		Body: &ast.BlockStmt{List: []ast.Stmt{&ast.ReturnStmt{Results: []ast.Expr{&ast.CompositeLit{Type: &ast.ArrayType{Elt: ast.NewIdent("bool")}, Elts: conds}}}}},
+	}
+	hd := ast.NewIdent("false")
+	if hasDefault {
+		hd = ast.NewIdent("true")
+	}
+	sw := &ast.SwitchStmt{
+		Tag:  &ast.CallExpr{Fun: sel("zzvrt", "Select"), Args: []ast.Expr{strLit(r.site(n.Pos(), kind)), hd, fn}},
+		Body: &ast.BlockStmt{List: cases},
+	}
+	// outside a controlled execution the original select runs unchanged
+	orig := &ast.SelectStmt{Body: &ast.BlockStmt{List: n.Body.List}}
+	handled[orig] = true
+	c.Replace(&ast.IfStmt{
+		Cond: &ast.CallExpr{Fun: sel("zzvrt", "Active")},
+		Body: &ast.BlockStmt{List: []ast.Stmt{sw}},
+		Else: &ast.BlockStmt{List: []ast.Stmt{orig}},
+	})
 }
 
 func (r *rewriter) goStmt(n *ast.GoStmt) ast.Stmt {
